@@ -1,5 +1,6 @@
-"""For the C03 .. C08 / C19 plugins: regenerate Model/AlgoGen.lean from the repo's src/algo/*.rs - the
-imperative-Rust -> Lean translator tie (tools/translate_algo.py, docs/AlgoGen.md).
+"""For the C03 .. C10 / C16 / C19 plugins: regenerate Model/AlgoGen.lean (set 1: src/algo traversals, shortest
+paths, predecessor tree) and Model/AlgoGen2.lean (set 2: tarjan.rs, johnson_75.rs, the From conversions) from the
+repo - the imperative-Rust -> Lean translator tie (tools/translate_algo.py, docs/AlgoGen.md).
 
 Chain it in a property plugin like `_opsgen` / `_reprgen`:
 
@@ -7,44 +8,59 @@ Chain it in a property plugin like `_opsgen` / `_reprgen`:
     def pre_build(ctx):  return _a.pre_build(ctx)          # (+ whatever the plugin already returns)
     def pre_checks(ctx): return _a.pre_checks(ctx)
 
-and add "GraafVerif.Thm.AlgoGen" to the property's `thm_module` list and the theorems of
-props/AlgoGen.json to its `theorems`, so that the regenerated definitions are re-checked (a changed
-comparison / dropped statement in a covered function then breaks a PROOF)."""
+and add "GraafVerif.Thm.AlgoGen" (C03..C08, C19) resp. "GraafVerif.Thm.AlgoGen2" (C09, C10, C16) to the
+property's `thm_module` list and the theorems of props/AlgoGen.json resp. props/AlgoGen2.json to its
+`theorems`, so that the regenerated definitions are re-checked (a changed comparison / dropped statement in a
+covered function then breaks a PROOF)."""
 import json
 import os
 import re
 import subprocess
 
 
+FILES = [(1, "AlgoGen.lean", "AlgoGen.json"), (2, "AlgoGen2.lean", "AlgoGen2.json")]
+
+
 def pre_build(ctx):
+    """regenerate Model/AlgoGen.lean (set 1) and Model/AlgoGen2.lean (set 2) from ctx["repo"]"""
     tool = os.path.join(ctx["root"], "tools", "translate_algo.py")
-    out = os.path.join(ctx["lean"], "GraafVerif", "Model", "AlgoGen.lean")
-    p = subprocess.run(["python3", tool, "--repo", ctx["repo"], "--out", out], capture_output=True, text=True)
-    msg = (p.stdout + p.stderr).strip()
-    if p.returncode == 2:
-        # a targeted function left the translatable subset (or cannot be located): the generated
-        # model cannot be produced -> broken tie
-        return [f"ERROR translate_algo could not translate {ctx['repo']}/src/algo: {msg}"]
-    if p.returncode != 0:
-        return [f"ERROR translate_algo failed (exit {p.returncode}): {msg}"]
-    lines = msg.splitlines()
-    return [lines[-1] if lines else "translate_algo: no output"]
+    notes = []
+    for which, lean, _ in FILES:
+        out = os.path.join(ctx["lean"], "GraafVerif", "Model", lean)
+        p = subprocess.run(["python3", tool, "--repo", ctx["repo"], "--set", str(which), "--out", out],
+                           capture_output=True, text=True)
+        msg = (p.stdout + p.stderr).strip()
+        if p.returncode == 2:
+            # a targeted function left the translatable subset (or cannot be located): the generated
+            # model cannot be produced -> broken tie
+            notes.append(f"ERROR translate_algo (set {which}) could not translate {ctx['repo']}/src: {msg}")
+        elif p.returncode != 0:
+            notes.append(f"ERROR translate_algo (set {which}) failed (exit {p.returncode}): {msg}")
+        else:
+            lines = msg.splitlines()
+            notes.append(lines[-1] if lines else "translate_algo: no output")
+    return notes
 
 
 def generated_defs(path):
-    """fully qualified suffixes `Struct.fn` of the definitions of the generated file"""
+    """fully qualified suffixes `Struct.fn` of the definitions of a generated file"""
     return [m.group(1) for m in re.finditer(r"^def (\S+)", open(path).read(), re.M)]
 
 
 def pre_checks(ctx):
-    """Every generated definition `X.f` must have its equality theorem `GraafVerif.AlgoGenThm.X.f_eq`
-    listed in props/AlgoGen.json (a function added to the translator's TARGETS without a theorem
-    would be an untied definition)."""
-    gen = os.path.join(ctx["lean"], "GraafVerif", "Model", "AlgoGen.lean")
-    props = os.path.join(ctx["root"], "props", "AlgoGen.json")
-    try:
-        thms = set(json.load(open(props))["theorems"])
-        missing = [d for d in generated_defs(gen) if f"GraafVerif.AlgoGenThm.{d}_eq" not in thms]
-    except (OSError, ValueError, KeyError) as e:
-        return [f"AlgoGen: {e}"]
-    return [f"AlgoGen: generated definitions without an equality theorem: {' '.join(missing)}"] if missing else []
+    """Every generated definition `X.f` (of both files) must have its equality theorem
+    `GraafVerif.AlgoGenThm.X.f_eq` listed in props/AlgoGen.json resp. props/AlgoGen2.json (a function
+    added to the translator's TARGETS without a theorem would be an untied definition)."""
+    out = []
+    for which, lean, props_name in FILES:
+        gen = os.path.join(ctx["lean"], "GraafVerif", "Model", lean)
+        props = os.path.join(ctx["root"], "props", props_name)
+        try:
+            thms = set(json.load(open(props))["theorems"])
+            missing = [d for d in generated_defs(gen) if f"GraafVerif.AlgoGenThm.{d}_eq" not in thms]
+        except (OSError, ValueError, KeyError) as e:
+            out.append(f"AlgoGen (set {which}): {e}")
+            continue
+        if missing:
+            out.append(f"AlgoGen (set {which}): generated definitions without an equality theorem: {' '.join(missing)}")
+    return out
